@@ -17,7 +17,7 @@
 (***************************************************************************)
 EXTENDS McaCore, Json
 
-CONSTANTS Nets,       \* subset of {"chain2", "branch", "rev", "pl"}
+CONSTANTS Nets,       \* subset of {"chain2", "branch", "rev", "cycle", "pl"}
           Grid,       \* "quick" | "mid" | "full"
           EmitOn
 VARIABLES nm, env, ph
@@ -36,28 +36,35 @@ In1  == ("x1" :> 1)
 Out1 == ("x1" :> (0 - 1))
 Out2 == ("x2" :> (0 - 1))
 X1X2 == ("x1" :> (0 - 1)) @@ ("x2" :> 1)
+X2X1 == ("x1" :> 1) @@ ("x2" :> (0 - 1))
 NoSS == <<>>
 
 Net(n) ==
     CASE n = "chain2" ->
             [vars |-> <<"x1", "x2">>, pars |-> <<"kin", "k1", "k2">>,
              rxns |-> <<Rx("v0", kin, In1), Rx("v1", Mul(k1, x1), X1X2), Rx("v2", Mul(k2, x2), Out2)>>,
-             ss |-> ("x1" :> Div(kin, k1)) @@ ("x2" :> Div(kin, k2))]
+             ss |-> ("x1" :> Div(kin, k1)) @@ ("x2" :> Div(kin, k2)), cons |-> <<>>]
       [] n = "branch" ->
             [vars |-> <<"x1", "x2">>, pars |-> <<"kin", "k1", "k2", "k3">>,
              rxns |-> <<Rx("v0", kin, In1), Rx("v1", Mul(k1, x1), X1X2), Rx("v2", Mul(k2, x2), Out2),
                         Rx("v3", Mul(k3, x1), Out1)>>,
-             ss |-> ("x1" :> Div(kin, Add(k1, k3))) @@ ("x2" :> Div(Mul(k1, kin), Mul(Add(k1, k3), k2)))]
+             ss |-> ("x1" :> Div(kin, Add(k1, k3))) @@ ("x2" :> Div(Mul(k1, kin), Mul(Add(k1, k3), k2))), cons |-> <<>>]
       [] n = "rev" ->
             [vars |-> <<"x1", "x2">>, pars |-> <<"kin", "k1", "km", "k2">>,
              rxns |-> <<Rx("v0", kin, In1), Rx("v1", Sub(Mul(k1, x1), Mul(km, x2)), X1X2), Rx("v2", Mul(k2, x2), Out2)>>,
-             ss |-> ("x1" :> Div(Add(kin, Div(Mul(km, kin), k2)), k1)) @@ ("x2" :> Div(kin, k2))]
+             ss |-> ("x1" :> Div(Add(kin, Div(Mul(km, kin), k2)), k1)) @@ ("x2" :> Div(kin, k2)), cons |-> <<>>]
+      [] n = "cycle" ->  \* closed loop x1 <-> x2: the total T = x1 + x2 of the STARTING state is conserved, so the
+                         \* steady state is a function of the parameters AND of the state the analysis starts from
+            [vars |-> <<"x1", "x2">>, pars |-> <<"k1", "k2">>,
+             rxns |-> <<Rx("v1", Mul(k1, x1), X1X2), Rx("v2", Mul(k2, x2), X2X1)>>,
+             ss |-> ("x1" :> Div(Mul(Sym("T"), k2), Add(k1, k2))) @@ ("x2" :> Div(Mul(Sym("T"), k1), Add(k1, k2))),
+             cons |-> <<[name |-> "T", members |-> <<"x1", "x2">>]>>]
       [] n = "pl" ->     \* power laws of several orders (no closed-form steady state: elasticities only)
             [vars |-> <<"x1", "x2">>, pars |-> <<"kin", "k1", "k2", "k3">>,
              rxns |-> <<Rx("v0", kin, In1), Rx("v1", Mul(k1, Pow(x1, 2)), X1X2), Rx("v2", Mul(Mul(k2, x1), x2), Out2),
                         Rx("v3", Mul(Pow(k3, 2), x2), Out2), Rx("v4", Div(Mul(k1, x1), x2), Out1),
                         Rx("v5", Mul(Mul(k1, k2), Pow(x2, 3)), Out2)>>,
-             ss |-> NoSS]
+             ss |-> NoSS, cons |-> <<>>]
 
 \* values per symbol (all positive; rate constants >= 1/2 keep the networks fast-relaxing)
 ValsOf(s) == CASE Grid = "full"  -> {R(1, 2), RInt(1), RInt(2), RInt(3)}
@@ -78,7 +85,10 @@ N == Net(nm)
 VarSet == Range(N.vars)
 ParSet == Range(N.pars)
 RxnSet == Range(RxnNames(N))
-PEnv == ParEnv(N, env)
+\* parameters plus the conserved totals of the point's state (the state the steady-state search starts from)
+PEnv == ParEnv(N, env) @@ [c \in {N.cons[i].name : i \in 1..Len(N.cons)} |->
+                              LET m == (CHOOSE x \in Range(N.cons) : x.name = c).members
+                              IN  RSum([i \in 1..Len(m) |-> env[m[i]]])]
 
 ScaledIsOrder == Done =>
     \A r \in RxnSet : \A s \in VarSet \cup ParSet :
